@@ -20,7 +20,7 @@ def gen_tx_spec(rng):
     n_out = rng.choice([1, 1, 2, 2, 3, 4])
     return {
         'ins': [rng.randrange(1000) for _ in range(n_in)],
-        'outs': [[rng.randrange(12), rng.randrange(1, 10)] for _ in range(n_out)],
+        'outs': [[99 if rng.random() < 0.04 else rng.randrange(12), rng.randrange(1, 10)] for _ in range(n_out)],
         'fee_ppm': rng.choice([0, 0, 0, 1, 1000, 50_000, 500_000, 999_999, 1_000_000]),
     }
 
